@@ -1,16 +1,26 @@
 ---- MODULE MCQubitOrder ----
 (* constant wrappers for QubitOrder: the revisions of the mechanism (see QubitOrderFn, Variant) *)
 EXTENDS QubitOrder
-\* cV<siteOrder><padDim><small>
-cV000 == [siteOrder |-> FALSE, padDim |-> FALSE, small |-> FALSE]     \* the code as found
-cV001 == [siteOrder |-> FALSE, padDim |-> FALSE, small |-> TRUE]
-cV010 == [siteOrder |-> FALSE, padDim |-> TRUE,  small |-> FALSE]
-cV011 == [siteOrder |-> FALSE, padDim |-> TRUE,  small |-> TRUE]
-cV100 == [siteOrder |-> TRUE,  padDim |-> FALSE, small |-> FALSE]
-cV101 == [siteOrder |-> TRUE,  padDim |-> FALSE, small |-> TRUE]
-cV110 == [siteOrder |-> TRUE,  padDim |-> TRUE,  small |-> FALSE]
-cV111 == [siteOrder |-> TRUE,  padDim |-> TRUE,  small |-> TRUE]      \* every index space repaired
+\* cV<siteOrder><padDim><small><allTags>      cV0000 = the code as found, cV1111 = every index space repaired
+cV0000 == [siteOrder |-> FALSE, padDim |-> FALSE, small |-> FALSE, allTags |-> FALSE]
+cV0001 == [siteOrder |-> FALSE, padDim |-> FALSE, small |-> FALSE, allTags |-> TRUE]
+cV0010 == [siteOrder |-> FALSE, padDim |-> FALSE, small |-> TRUE, allTags |-> FALSE]
+cV0011 == [siteOrder |-> FALSE, padDim |-> FALSE, small |-> TRUE, allTags |-> TRUE]
+cV0100 == [siteOrder |-> FALSE, padDim |-> TRUE, small |-> FALSE, allTags |-> FALSE]
+cV0101 == [siteOrder |-> FALSE, padDim |-> TRUE, small |-> FALSE, allTags |-> TRUE]
+cV0110 == [siteOrder |-> FALSE, padDim |-> TRUE, small |-> TRUE, allTags |-> FALSE]
+cV0111 == [siteOrder |-> FALSE, padDim |-> TRUE, small |-> TRUE, allTags |-> TRUE]
+cV1000 == [siteOrder |-> TRUE, padDim |-> FALSE, small |-> FALSE, allTags |-> FALSE]
+cV1001 == [siteOrder |-> TRUE, padDim |-> FALSE, small |-> FALSE, allTags |-> TRUE]
+cV1010 == [siteOrder |-> TRUE, padDim |-> FALSE, small |-> TRUE, allTags |-> FALSE]
+cV1011 == [siteOrder |-> TRUE, padDim |-> FALSE, small |-> TRUE, allTags |-> TRUE]
+cV1100 == [siteOrder |-> TRUE, padDim |-> TRUE, small |-> FALSE, allTags |-> FALSE]
+cV1101 == [siteOrder |-> TRUE, padDim |-> TRUE, small |-> FALSE, allTags |-> TRUE]
+cV1110 == [siteOrder |-> TRUE, padDim |-> TRUE, small |-> TRUE, allTags |-> FALSE]
+cV1111 == [siteOrder |-> TRUE, padDim |-> TRUE, small |-> TRUE, allTags |-> TRUE]
 cMpsOnly == {"mps"}
 cSvOnly  == {"sv"}
 cBoth    == {"mps", "sv"}
+cTagsBase == {"base"}
+cTagsAll  == {"base", "suffix", "both"}
 ====
